@@ -108,6 +108,30 @@ class Ctx:
         self.failed = {}
         self.busy = set()
         self.tmp = 0
+        self.globals = {}
+        self.fetch = lambda name: []
+
+    def global_const(self, name):
+        """a file-scope `const` variable initialised with a literal: its value"""
+        if name in self.globals:
+            return self.globals[name]
+        val = None
+        try:
+            for d in self.fetch(name):
+                if d.get("kind") == "VarDecl" and d.get("name") == name and "const" in qt(d):
+                    ks = kids(d)
+                    if len(ks) == 1:
+                        v = strip(ks[0])
+                        if v.get("kind") == "StringLiteral":
+                            val = (lean_bytes(json.loads(v["value"])), "bytes")
+                        elif v.get("kind") == "IntegerLiteral":
+                            val = ("(%s : Int)" % v["value"], "int")
+                        elif v.get("kind") == "CXXBoolLiteralExpr":
+                            val = ("true" if v["value"] else "false", "bool")
+        except Exception:
+            val = None
+        self.globals[name] = val
+        return val
 
     def fresh(self):
         self.tmp += 1
@@ -115,7 +139,7 @@ class Ctx:
 
     # ------------------------------------------------------------------ functions
     def lean_name(self, key):
-        return key.replace("::", "_")
+        return "fn_" + key[2:] if key.startswith("::") else key.replace("::", "_")
 
     def sig(self, key):
         """(params [(cname, leanname, type)], ret type, is_const) of a function, from its declaration"""
@@ -156,6 +180,15 @@ class Ctx:
             return "(%s : Int)" % v["value"]
         return "?"
 
+    def need_free(self, name):
+        """a file-scope (static) function of this translation unit: fetched by name, translated as a pure function"""
+        key = "::" + name
+        if key not in self.decls:
+            for d in self.fetch(name):
+                if d.get("kind") == "FunctionDecl" and d.get("name") == name and body_of(d) is not None:
+                    self.decls[key] = d
+        return self.need(key)
+
     def need(self, key):
         if key in self.done:
             return self.done[key]
@@ -185,8 +218,11 @@ class Fn:
         self.ctx = ctx
         self.key = key
         self.cls = key.split("::")[0]
+        self.free = key.startswith("::")
         self.decl = ctx.decls[key]
         self.params, self.ret, self.const = ctx.sig(key)
+        if self.free:
+            self.const = True
         self.uses_env = False
         self.info = None
         self.outbuf = None
@@ -233,7 +269,11 @@ class Fn:
         if rty is None or "?" in rty:
             raise Untranslatable("return type " + self.ret)
         self.info = {"name": name, "params": self.params, "ret": self.ret, "const": self.const, "env": self.uses_env, "outbuf": bool(self.outbuf)}
-        head = "def %s %s(s : Sock) %s: %s :=" % (name, "(env : Env) (app : App) " if self.uses_env else "", " ".join(args) + (" " if args else ""), rty)
+        self.info["free"] = self.free
+        if self.free and self.uses_env:
+            raise Untranslatable("file-scope function that needs the environment")
+        head = "def %s %s%s%s: %s :=" % (name, "(env : Env) (app : App) " if self.uses_env else "", "" if self.free else "(s : Sock) ",
+                                         " ".join(args) + (" " if args else ""), rty)
         return "/-- `%s` -/\n%s\n%s\n" % (self.key, head, ind(body, 2))
 
     # ------------------------------------------------------------------ helpers
@@ -297,7 +337,7 @@ class Fn:
     def member(self, n):
         """d->x / this->x (x a data member of SocketPrivate)  ->  x"""
         n = strip(n)
-        if n.get("kind") != "MemberExpr":
+        if n.get("kind") != "MemberExpr" or not kids(n):
             return None
         base = strip(kids(n)[0])
         if base.get("kind") == "CXXThisExpr" and self.cls == "SocketPrivate":
@@ -353,6 +393,10 @@ class Fn:
             if rd.get("name") in env:
                 ln, t = env[rd["name"]]
                 return [], ln, t
+            if rd.get("kind") == "VarDecl":
+                g = self.ctx.global_const(rd.get("name"))
+                if g is not None:
+                    return [], g[0], g[1]
             raise Untranslatable("reference to " + str(rd.get("name")))
         if k == "MemberExpr":
             m = self.member(n)
@@ -683,6 +727,16 @@ class Fn:
             self.uses_env = True
             t = self.ctx.fresh()
             return pre + ["let (s, %s) := Cxx.parsePath env s %s" % (t, a[0][0])], t, "bool"
+        if fn.get("referencedDecl", {}).get("kind") == "FunctionDecl" and nm:
+            info = self.ctx.need_free(nm)
+            pre, a = self.args(real, env)
+            ps = info["params"]
+            if len(a) != len(ps):
+                raise Untranslatable("call to %s with default arguments" % nm)
+            for (c, t), (cn, ln, pt, _) in zip(a, ps):
+                if t != pt:
+                    raise Untranslatable("argument %s of %s: %s for %s" % (cn, nm, t, pt))
+            return pre, "(%s%s)" % (info["name"], "".join(" " + c for c, _ in a)), info["ret"]
         raise Untranslatable("call to " + str(nm))
 
     # ------------------------------------------------------------------ conditions (C++ evaluation order)
@@ -737,8 +791,15 @@ class Fn:
                 t = ty_of(qt(v))
                 nm = v["name"]
                 init = kids(v)
-                if t == "?QJsonParseError":
-                    raise Untranslatable("QJsonParseError")
+                if "iterator" in qt(v) and init:
+                    b0 = strip(init[0])
+                    if b0.get("kind") == "CXXMemberCallExpr" and strip(kids(b0)[0]).get("name") in ("constBegin", "begin", "cbegin", "constEnd", "end", "cend"):
+                        pm, cm, tm = self.ex(kids(strip(kids(b0)[0]))[0], env)
+                        if tm == "hmap" and not pm:
+                            which = "begin" if "egin" in strip(kids(b0)[0])["name"] else "end"
+                            env[nm] = ((which, cm), "iter")
+                            continue
+                    raise Untranslatable("iterator %s that is not begin()/end() of a header map" % nm)
                 if t not in ("int", "bool", "bytes"):
                     raise Untranslatable("local %s of type %s" % (nm, qt(v)))
                 if not init or (strip(init[0]).get("kind") in ("CXXConstructExpr", "CXXTemporaryObjectExpr") and not [c for c in kids(strip(init[0])) if c.get("kind") != "CXXDefaultArgExpr"]):
@@ -946,7 +1007,21 @@ class Fn:
     def map_loop(self, s, env):
         """for (auto i = M.constBegin(); i != M.constEnd(); ++i) { acc.append(i.key()) … }   (or begin/end/cbegin/cend)
         -> let acc := M.foldl (fun acc e => …) acc"""
-        parts = kids(s)
+        def is_incr(n, itname):
+            i0 = strip(n)
+            if i0.get("kind") == "CXXOperatorCallExpr" and strip(kids(i0)[0]).get("referencedDecl", {}).get("name") == "operator++":
+                return strip(kids(i0)[1]).get("referencedDecl", {}).get("name") == itname
+            return False
+        def end_of(n):
+            """the map whose end() the expression denotes, as Lean code"""
+            r = strip(n)
+            if r.get("kind") == "CXXMemberCallExpr" and strip(kids(r)[0]).get("name") in ("constEnd", "end", "cend"):
+                return self.ex(kids(strip(kids(r)[0]))[0], env)[1]
+            nm2 = r.get("referencedDecl", {}).get("name")
+            if nm2 in env and env[nm2][1] == "iter" and env[nm2][0][0] == "end":
+                return env[nm2][0][1]
+            return None
+        pm = []
         if s["kind"] == "ForStmt":
             # clang: [init, condvar(None -> {}), cond, inc, body]
             raw = s.get("inner", [])
@@ -956,28 +1031,36 @@ class Fn:
             it = kids(init)[0]
             itname = it["name"]
             b = strip(kids(it)[0])
+            if b.get("kind") != "CXXMemberCallExpr" or strip(kids(b)[0]).get("name") not in ("constBegin", "begin", "cbegin"):
+                raise Untranslatable("loop that does not start at begin()")
+            pm, cm, tm = self.ex(kids(strip(kids(b)[0]))[0], env)
+            if tm != "hmap":
+                raise Untranslatable("iteration over " + tm)
+            if not is_incr(inc, itname):
+                raise Untranslatable("loop that is not `for (i = m.begin(); i != m.end(); ++i)`")
+            bss = self.flatten(body)
         else:
-            raise Untranslatable("while loop")
-        if b.get("kind") != "CXXMemberCallExpr" or strip(kids(b)[0]).get("name") not in ("constBegin", "begin", "cbegin"):
-            raise Untranslatable("loop that does not start at begin()")
-        mapn = kids(strip(kids(b)[0]))[0]
-        pm, cm, tm = self.ex(mapn, env)
-        if tm != "hmap":
-            raise Untranslatable("iteration over " + tm)
+            # while (it != end) { …; ++it; }  with `it` a local iterator at begin()
+            raw = kids(s)
+            cnd, body = raw[0], raw[1]
+            c0 = strip(cnd)
+            if c0.get("kind") != "CXXOperatorCallExpr":
+                raise Untranslatable("while loop over something else than an iterator")
+            itname = strip(kids(c0)[1]).get("referencedDecl", {}).get("name")
+            if itname not in env or env[itname][1] != "iter" or env[itname][0][0] != "begin":
+                raise Untranslatable("while loop whose iterator is not at begin()")
+            cm = env[itname][0][1]
+            bss = self.flatten(body)
+            if not bss or not is_incr(bss[-1], itname):
+                raise Untranslatable("while loop that does not end with ++iterator")
+            bss = bss[:-1]
         c0 = strip(cnd)
         ok = False
         if c0.get("kind") == "CXXOperatorCallExpr" and strip(kids(c0)[0]).get("referencedDecl", {}).get("name") == "operator!=":
-            l, r = strip(kids(c0)[1]), strip(kids(c0)[2])
-            if l.get("referencedDecl", {}).get("name") == itname and r.get("kind") == "CXXMemberCallExpr" and strip(kids(r)[0]).get("name") in ("constEnd", "end", "cend"):
-                pm2, cm2, _ = self.ex(kids(strip(kids(r)[0]))[0], env)
-                ok = cm2 == cm
-        i0 = strip(inc)
-        if not (i0.get("kind") == "CXXOperatorCallExpr" and strip(kids(i0)[0]).get("referencedDecl", {}).get("name") == "operator++"
-                and strip(kids(i0)[1]).get("referencedDecl", {}).get("name") == itname):
-            ok = False
+            l = strip(kids(c0)[1])
+            ok = l.get("referencedDecl", {}).get("name") == itname and end_of(kids(c0)[2]) == cm
         if not ok:
-            raise Untranslatable("loop that is not `for (i = m.begin(); i != m.end(); ++i)`")
-        bss = self.flatten(body)
+            raise Untranslatable("loop that does not run from begin() to end() of one map")
         names = self.assigned(bss, env)
         if len(names) != 1 or env[names[0]][1] != "bytes":
             raise Untranslatable("loop body that does more than append to one byte array")
@@ -1074,6 +1157,7 @@ def translate_socket(repo, exp):
     except OSError:
         pass
     ctx = Ctx(decls, senums, version or "")
+    ctx.fetch = lambda name: clang_ast(repo, "socket.cpp", name, exp)
     done, failed = [], []
     for key in WANTED:
         try:
@@ -1087,7 +1171,14 @@ def translate_socket(repo, exp):
     for key in ctx.order:
         out.append(ctx.code[key])
         done.append(key)
+    helpers = [ctx.done[k]["name"] for k in ctx.order if k not in WANTED]
     out.append("end QhttpGen.Sock\n")
+    out.append("/-- unfolds the functions the translation produced besides the interface functions (helpers introduced\n"
+               "    by the C++: private methods, file-scope functions); the bridge proofs start with it -/")
+    if helpers:
+        out.append("macro \"unfold_gen_helpers\" : tactic => `(tactic| try simp only [%s] at *)\n" % ", ".join("QhttpGen.Sock." + h for h in helpers))
+    else:
+        out.append("macro \"unfold_gen_helpers\" : tactic => `(tactic| skip)\n")
     return "\n".join(out), done, failed
 
 
